@@ -44,7 +44,8 @@ def gen_strings(ctx):
     for _ in range(20000 if ctx.big else 1500 * (1 + 4 * ctx.level)):
         out.append(("random-long", "".join(rng.choice(uni) for _ in range(rng.randrange(0, 60)))))
     # corpus: finding witnesses first in the evidence
-    corpus = ["\\n", "\\,", "\\;", "\\\\", "%2C", "%3A", "%3B", "%5C", "a\\nb", "\\N", "\r\n", "\\\r\n", "a,b", "x\\"]
+    corpus = ["\\n", "\\,", "\\;", "\\\\", "%2C", "%3A", "%3B", "%5C", "a\\nb", "\\N", "\r\n", "\\\r\n", "a,b", "x\\",
+              "\ufeffabc", "\ufeff", "a\ufeffb"]
     return [("corpus", s) for s in corpus] + out
 
 
